@@ -142,6 +142,16 @@ void harness (void)
       for (size_t k = 0; k < 384; k++)   /* XV_UNWIND 384 */
         if (out[k] == 0) nul = true;
       XV_ASSERT ("C04,C06", nul, "NUL-terminated inside the 384-byte output");
+      /* C01: the result, used as the setting of the next call, must pass this
+         function's own size guard (set_size + 1 + 43 + 1 <= 384), otherwise
+         the stored hash can never be verified */
+      {
+        size_t n = 0; bool e = false;
+        for (size_t k = 0; k < 384; k++)   /* XV_UNWIND 384 */
+          if (!e) { if (out[k] == 0) e = true; else n++; }
+        XV_ASSERT ("C01", n + 1 + 43 + 1 <= 384,
+                   "a produced hash is short enough to be accepted as a setting by the same size guard (round trip)");
+      }
       XV_CANARY ("success path");
     }
 }
